@@ -52,8 +52,8 @@ package network
 //@   ensures RI(d.Channel.Q)
 //@   modifies wire, rd, sent, quiet, echoed, optlog, alloc(), all(util.Queue.queue), all(util.Queue.depth), chans()
 //@   ensures #plain-escalate-command !(level(d, target).EscalateAuth && d.AuthSecondary != "") ==> sent == old(sent) ++ strs(level(d, target).Escalate)
-//@   at call SendInteractive#1 assert #escalation-dialogue len(arg0) == 2 && arg0[0].ChannelInput == level(d, target).Escalate && arg0[0].ChannelResponse == level(d, target).EscalatePrompt && !arg0[0].HideInput && arg0[1].ChannelInput == d.AuthSecondary && arg0[1].HideInput
-//@   at call SendInteractive#1 assert #secret-only-with-auth level(d, target).EscalateAuth && d.AuthSecondary != ""
+//@   at call! SendInteractive#1 assert #escalation-dialogue len(arg0) == 2 && arg0[0].ChannelInput == level(d, target).Escalate && arg0[0].ChannelResponse == level(d, target).EscalatePrompt && !arg0[0].HideInput && arg0[1].ChannelInput == d.AuthSecondary && arg0[1].HideInput
+//@   at call! SendInteractive#1 assert #secret-only-with-auth level(d, target).EscalateAuth && d.AuthSecondary != ""
 
 //@ func (*Driver).escalate$1 [C04 C12]
 //@   modifies as(o, "*channel.OperationOptions").CompletePatterns, alloc()
@@ -90,30 +90,30 @@ package network
 
 //@ func (*Driver).SendCommand [C04 C05]
 //@   requires d.DefaultDesiredPriv != "" && RI(d.Channel.Q) && d.Channel.PromptSearchDepth >= 0
-//@   at call SendCommand#1 assert #commands-run-at-the-default-level old(d.CurrentPriv) == d.DefaultDesiredPriv || acquired == d.DefaultDesiredPriv
+//@   at call! SendCommand#1 assert #commands-run-at-the-default-level old(d.CurrentPriv) == d.DefaultDesiredPriv || acquired == d.DefaultDesiredPriv
 //@   ensures #implicit-privilege-failure-is-a-privilege-error old(d.CurrentPriv) != d.DefaultDesiredPriv && acquired != d.DefaultDesiredPriv ==> isErr(result.1, util.ErrPrivilegeError) && result.0 == nil
 
 //@ func (*Driver).SendCommands [C04 C05]
 //@   requires d.DefaultDesiredPriv != "" && RI(d.Channel.Q) && d.Channel.PromptSearchDepth >= 0
-//@   at call SendCommands#1 assert #commands-run-at-the-default-level old(d.CurrentPriv) == d.DefaultDesiredPriv || acquired == d.DefaultDesiredPriv
+//@   at call! SendCommands#1 assert #commands-run-at-the-default-level old(d.CurrentPriv) == d.DefaultDesiredPriv || acquired == d.DefaultDesiredPriv
 //@   ensures #implicit-privilege-failure-is-a-privilege-error old(d.CurrentPriv) != d.DefaultDesiredPriv && acquired != d.DefaultDesiredPriv ==> isErr(result.1, util.ErrPrivilegeError) && result.0 == nil
 
 //@ func (*Driver).SendCommandsFromFile [C04]
 //@   requires d.DefaultDesiredPriv != "" && RI(d.Channel.Q) && d.Channel.PromptSearchDepth >= 0
-//@   at call SendCommandsFromFile#1 assert #commands-run-at-the-default-level old(d.CurrentPriv) == d.DefaultDesiredPriv || acquired == d.DefaultDesiredPriv
+//@   at call! SendCommandsFromFile#1 assert #commands-run-at-the-default-level old(d.CurrentPriv) == d.DefaultDesiredPriv || acquired == d.DefaultDesiredPriv
 
 //@ func (*Driver).SendConfigs [C04 C13]
 //@   requires RI(d.Channel.Q) && d.Channel.PromptSearchDepth >= 0
-//@   at call SendCommands#1 assert [C13] #the-config-lines-go-to-the-generic-driver-unchanged arg0 === configs && arg1 === opts
+//@   at call! SendCommands#1 assert [C13] #the-config-lines-go-to-the-generic-driver-unchanged arg0 === configs && arg1 === opts
 //@   ensures [C13] #nil-on-error result.1 != nil ==> result.0 == nil
 //@   ensures [C13] #at-least-one-response result.1 == nil && len(configs) >= 1 ==> 1 <= len(result.0.Responses) && len(result.0.Responses) <= len(configs)
 //@   ensures [C13] #multi-failed-iff-member result.1 == nil ==> ((result.0.Failed != nil) <==> (exists j int :: 0 <= j && j < len(result.0.Responses) && result.0.Responses[j].Failed != nil))
-//@   at call SendCommands#1 assert #configs-run-at-the-configuration-or-requested-level acquired == (op.PrivilegeLevel != "" ? op.PrivilegeLevel : "configuration")
+//@   at call! SendCommands#1 assert #configs-run-at-the-configuration-or-requested-level acquired == (op.PrivilegeLevel != "" ? op.PrivilegeLevel : "configuration")
 
 // ---- C13: a collapsed config response reports what the aggregate reports -----------------------------------------------------
 //@ func (*Driver).SendConfig [C13]
 //@   requires RI(d.Channel.Q) && d.Channel.PromptSearchDepth >= 0
-//@   at call SendConfigs#1 assert #the-lines-of-the-config-are-sent-in-order joinS(arg0, "\n") == config && arg1 === opts
+//@   at call! SendConfigs#1 assert #the-lines-of-the-config-are-sent-in-order joinS(arg0, "\n") == config && arg1 === opts
 //@   at return assert #the-collapsed-response-is-failed-exactly-when-the-aggregate-is result.1 == nil ==> result.0 == r && r.Failed == m.Failed
 //@   at return assert #its-result-is-the-members-results-joined result.1 == nil ==> r.Result == joinS(rOutputs, "\n") && len(rOutputs) == len(m.Responses)
 //@   loop 1 invariant #each-output-is-its-members-result rangeindex < len(m.Responses) && len(rOutputs) == len(m.Responses) && (forall k int :: 0 <= k && k <= rangeindex ==> rOutputs[k] == m.Responses[k].Result) && isnew(r) && r.Failed == nil
